@@ -455,6 +455,14 @@ class Abs:
             return ("listm", attr, base)
         if isinstance(base, str) and attr in ("strip", "lower", "upper", "split", "format", "join", "startswith", "endswith", "replace"):
             return ("strm", attr, base)
+        if isinstance(base, tuple) and len(base) == 2 and base[0] == "pymodule":
+            sub = self._sub({}, None, base[1])
+            g = sub._global(attr)
+            if g is _MISSING:
+                if attr in base[1].classes:
+                    raise Undecided("class %s.%s used as a value" % (base[1].modname, attr))
+                raise Raised("AttributeError(module %s has no attribute %s)" % (base[1].modname, attr))
+            return g
         if isinstance(base, tuple) and base and base[0] in ("closure", "lambda", "func", "py") and attr == "__get__":
             return ("py", lambda obj, *a: ("boundclosure", base, obj))      # a function bound to an instance
         if isinstance(base, tuple) and attr in ("index", "count"):
@@ -1009,6 +1017,8 @@ class Abs:
                 _MODCONST[key] = v
                 return v
         tgt = m.imports.get(name)
+        if tgt and tgt in repo.modules:
+            return ("pymodule", repo.modules[tgt])       # `from . import ode_utils`, `import pygom.model.ode_utils as ...`
         if tgt and tgt.startswith("pygom"):
             for _ in range(3):
                 modname, _, fname = tgt.rpartition(".")
